@@ -374,7 +374,10 @@ def gen_cases(rng, tier, boost=1):
       direct = set()
       for m in mods:
         direct |= set(attrs.get(m, {}).values())
-      elig = sorted((direct - mods) | {c for c in classes})
+      objs_ = get_world()[1]
+      # (a decorated variant carries the name and module of what it wraps: registered from Python by its own name it
+      # would claim the same selector, which is not what this generator is about)
+      elig = sorted(o for o in ((direct - mods) | {c for c in classes}) if not hasattr(objs_[o], '__wrapped__'))
       prereg = rng.sample(elig, rng.randint(1, min(3, len(elig))))
       inner = name_to_id('c19pkg.m1:Cls.Inner')
       if rng.random() < 0.6 and inner not in prereg:
